@@ -30,7 +30,7 @@ LEVEL = "model_checking"
 
 ALL_LEAVES = ["u1", "u2", "s2", "s3", "e2", "f3", "se2"]
 ENUM_CLASSES = ["e2", "se2", "f3", "e3", "se3", "f3a", "f4c", "f3m", "f3k"]
-INVARIANTS = ["Placement", "NestedSlices", "PackUnpack", "ReadBack", "AssignFrame", "FlagLaws", "EnumValues"]
+INVARIANTS = ["Placement", "NestedSlices", "PackUnpack", "ReadBack", "AssignFrame", "TypedInit", "FlagLaws", "EnumValues"]
 ACTIONS = ["AddLeaf", "AddNested", "FinishArray", "FinishFlex", "EnumCase"]
 
 
@@ -228,14 +228,26 @@ class LayoutCase:
         n = self.nodes[j]
         return n["k"] != "enum" or v in self.paths[j]["valid"]
 
-    def fill(self, node, t, row, members, crow=None):
-        """template + row of values (+ row of the complemented pattern for negative indexes) -> Python initialiser"""
+    def fill(self, node, t, row, members, crow=None, cv=None):
+        """template + row of values (+ row of the complemented pattern for negative indexes) -> Python initialiser.
+        An entry (position, j, cw, cs) is a constant with its own shape: hdl.Const(v, signed(cw)/unsigned(cw)),
+        v = next value of `cv` (TLC's list of the template's typed-constant values for this pattern)."""
         if is_leaf(node):
             v = row[t - 1] if t > 0 else crow[-t - 1]
             if node["k"] == "enum" and members:
                 return make_enum(node)(v)
             return v
-        items = [(pos, self.fill(sub(node, pos), st, row, members, crow)) for pos, st in t]
+        items = []
+        for e in t:
+            if len(e) == 4:
+                from amaranth.hdl import Const, Shape
+                v = next(cv)
+                c = Const(v, Shape(e[2], e[3]))
+                if c.value != v:
+                    raise MachineryError("specification gave %r as a value of the constant shape %r" % (v, c.shape()))
+                items.append((e[0], c))
+            else:
+                items.append((e[0], self.fill(sub(node, e[0]), e[1], row, members, crow, cv)))
         if node["k"] == "array":
             if [p for p, _ in items] == list(range(1, node["n"] + 1)):
                 return [x for _, x in items]
@@ -419,7 +431,13 @@ def check_consts(lc, out, opts):
         crow = tab["vals"][(1 << lc.size) - 1 - raw]
         for y, t in enumerate(tab["xtmpl"]):
             want = tab["xconst"][x][y]
-            inits = [lc.fill(top, t, row, bool((x + y) % 2), crow)]
+            cv = iter(tab["xcv"][x][y])
+            inits = [lc.fill(top, t, row, bool((x + y) % 2), crow, cv)]
+            if next(cv, None) is not None:
+                raise MachineryError("template %r of %s: typed constant values left over" % (t, lc.desc))
+            typed = len(tab["xcv"][x][y]) > 0
+            if typed:
+                out.count("typed_const_inits")
             if t == ():
                 inits.append(None)
             for init in inits:
@@ -427,7 +445,25 @@ def check_consts(lc, out, opts):
                     got = L.const(init).as_bits()
                     out.count("const_inits")
                     if got != want:
-                        bad("const_from_fields", "const(%r).as_bits() = %r, specification %r" % (init, got, want), api="partial")
+                        bad("const_from_fields", "const(%r).as_bits() = %r, specification %r" % (init, got, want),
+                            api="typed_const" if typed else "partial")
+                    # the class-based definition: const(init) and keyword defaults (declaration order only)
+                    if cls is not None and isinstance(init, dict):
+                        got = cls.const(init).as_bits()
+                        if got != want:
+                            bad("const_from_fields", "class const(%r).as_bits() = %r, specification %r" % (init, got, want),
+                                api="class_typed_const" if typed else "class_partial")
+                        pos = [e[0] for e in t]
+                        if x < 3 and init and pos == sorted(pos):
+                            base = data.Struct if top["k"] == "struct" else data.Union
+                            ns = {"__annotations__": {f["name"]: L[f["name"]].shape for f in top["fields"]}}
+                            ns.update(init)
+                            dcls = type(base)("C15Dflt", (base,), ns)
+                            got = (dcls.const(None).as_bits(), Signal(dcls).as_value().init)
+                            out.count("class_defaults")
+                            if got != (want, want):
+                                bad("const_from_fields", "class with defaults %r: (const(None).as_bits(), Signal(cls).init) = %r, "
+                                    "specification %r" % (init, got, want), api="class_defaults")
                     if x < 4:
                         try:
                             sg = Signal(L, init=init)
@@ -439,7 +475,7 @@ def check_consts(lc, out, opts):
                             bad("const_from_fields", "Signal(layout, init=%r) has init %r, specification %r" % (
                                 init, sg.as_value().init, want), api="signal_init")
                 except Exception as e:
-                    bad("const_from_fields", "const(%r) raised %r" % (init, e), api="partial", error=_exc(e))
+                    bad("const_from_fields", "const(%r) raised %r" % (init, e), api="typed_const" if typed else "partial", error=_exc(e))
     # nested constants as initialisers of layout-shaped fields: const({key: sublayout.from_bits(x)})
     for j in tops:
         node = lc.nodes[j]
@@ -492,6 +528,25 @@ def build_dut(lc, idx, m, out, opts):
             out.violation(lc.key("signal", error=_exc(e)), "%s: Signal(layout) raised %r" % (lc.desc, e), top)
     d.sig = mk("sig")
     d.ports.append(d.sig.as_value())
+    # signals with an initial value given field by field (with typed constants where the table has them)
+    d.inits = []
+    tab = lc.tab
+    if tab["xraws"] and not d.plain_view:
+        typed_y = [y for y in range(len(tab["xtmpl"])) if tab["xcv"][0][y]]
+        picks = {(0, typed_y[0] if typed_y else 0), (len(tab["xraws"]) - 1, typed_y[-1] if typed_y else len(tab["xtmpl"]) - 1),
+                 (len(tab["xraws"]) // 2, typed_y[len(typed_y) // 2] if typed_y else 0)}
+        for x, y in sorted(picks):
+            raw = tab["xraws"][x]
+            init = lc.fill(top, tab["xtmpl"][y], tab["vals"][raw], True, tab["vals"][(1 << lc.size) - 1 - raw],
+                           iter(tab["xcv"][x][y]))
+            try:
+                isig = Signal(L, init=init, name="l%d_init%d_%d" % (idx, x, y))
+            except Exception as e:
+                out.violation(lc.key("const_from_fields", api="signal_init", error=_exc(e)),
+                              "%s: Signal(layout, init=%r) raised %r" % (lc.desc, init, e), top)
+                continue
+            d.inits.append((isig, init, tab["xconst"][x][y]))
+            d.ports.append(isig.as_value())
     d.fields = [None] * lc.P      # field objects of sig (view / value / enum view)
     d.fvals = [None] * lc.P       # Value.cast of them
     d.outs = [None] * lc.P        # compiled copies
@@ -577,6 +632,12 @@ def _sim_reads(ctx, d, out, opts):
     lc, tab = d.lc, d.lc.tab
     sv = d.sig.as_value()
     bad = lambda clause, desc, **kw: out.violation(lc.key(clause, **kw), "%s: %s" % (lc.desc, desc), lc.top)
+    for isig, init, want in d.inits:        # at time 0: the value of a signal created with init=
+        got = (ctx.get(isig.as_value()), _num(ctx.get(isig)))
+        out.count("sim_inits")
+        if got != (want, want):
+            bad("const_from_fields", "Signal(layout, init=%r): ctx.get at time 0 gives %r, specification %r" % (init, got, want),
+                api="sim_signal_init")
     for raw in range(1 << lc.size):
         row = tab["vals"][raw]
         ctx.set(sv, raw)
@@ -1132,7 +1193,7 @@ def run(ctx):
 
     with ThreadPoolExecutor(8) as ex:
         fm = [ex.submit(mutant, j) for j in (("array_stride", "Placement"), ("union_size_sum", "Placement"),
-                                             ("flag_not_unmasked", "FlagLaws"))]
+                                             ("flag_not_unmasked", "FlagLaws"), ("const_mask_from_init", "TypedInit"))]
         ff = [ex.submit(family, j) for j in families]
         fr = ex.submit(rand, None)
         for f in fm:
@@ -1184,7 +1245,8 @@ def run(ctx):
     # ---------------- accounting / vacuity guards --------------------------------------------------
     need = ["layouts", "layouts_struct", "layouts_union", "layouts_array", "layouts_flex", "layouts_nested", "placement",
             "pairs", "class_pairs", "const_reads", "const_inits", "sim_pairs", "sim_reads", "sim_dyn_reads", "sim_assign",
-            "sim_set", "rtlil_designs", "enums", "enum_round_trips", "flag_ops"]
+            "sim_set", "rtlil_designs", "enums", "enum_round_trips", "flag_ops", "typed_const_inits", "class_defaults",
+            "sim_inits"]
     for k in need:
         if totals.get(k, 0) == 0:
             raise MachineryError("vacuous run: nothing counted for %r (%r)" % (k, totals))
